@@ -276,3 +276,14 @@ MUTANTS += [
     ("c18_collect_empty_result_clears", RS, "        # CallResults\n        for tr in r.results:", "        # CallResults\n        if not r.results:\n            collected.clear()\n        for tr in r.results:", ["C18"]),
     ("c18_readonly_alias_regress", RS, "                    setattr(collected[cr.hash_key], axis, np.array(values))", "                    setattr(collected[cr.hash_key], axis, values)", ["C18", "C06"]),
 ]
+SO = "ioos_qc/stores.py"
+MUTANTS += [
+    ("c19_cf_safe_no_prefix_for_digit", UT, '        if re.match("^[0-9_]", name):', '        if re.match("^[_]", name):', ["C19"]),
+    ("c19_include_and_to_or", SO, "                cr.function not in include\n                and cr.stream_id not in include\n                and cr.test not in include", "                cr.function not in include\n                or cr.stream_id not in include\n                and cr.test not in include", ["C19"]),
+    ("c19_exclude_regress", SO, "cr.function in exclude or cr.stream_id in exclude or cr.test in exclude", "cr.function in exclude or cr.stream_id in exclude or cr.test in cr.test in include", ["C19"]),
+    ("c19_write_data_ignores_filter", SO, "            # Inclusion list, skip everything not defined\n            if include is not None and (", "            if write_data and cr.stream_id not in df and cr.stream_id:\n                df[cr.stream_id] = cr.data\n            # Inclusion list, skip everything not defined\n            if include is not None and (", ["C19"]),
+    ("c19_axes_written_when_false", SO, "                write_axes is True\n                and self.axes[\"z\"] not in df", "                self.axes[\"z\"] not in df", ["C19"]),
+    ("c19_aggregate_skips_last", SO, "            results=aggregate(self.collected_results),", "            results=aggregate(self.collected_results[:-1] or self.collected_results),", ["C19"]),
+    ("c19_column_name_drops_package", SO, '    package_label = f"{cr.package}." if cr.package else ""', '    package_label = ""', ["C19"]),
+    ("c19_results_filled_unknown", SO, "                df[column_name] = cr.results\n", "                df[column_name] = np.ma.filled(cr.results, 2)\n", ["C19"]),
+]
